@@ -49,6 +49,11 @@ def stepC05 (toks : List String) : Option String :=
     pure (showNats ((UniqIter.uniqValues J (UniqIter.run 2 J l)).mergeSort))
   | ["u_hpx", d, i] => do let d ← d.toNat?; let i ← i.toNat?; pure (toString (uniqHpx d i))
   | ["u_fromhpx", u] => do let u ← u.toNat?; let c := fromUniqHpx u; pure s!"{c.1}/{c.2}"
+  | ["r_depthidx", w, l] => do
+    -- `iter_depth_pix`: the cells of the transliterated iterator as (depth, index), in emission order
+    let w ← w.toNat?; let l ← parseRngs l
+    let J := Params.hpx.maxDepth w
+    pure (showCells (UniqIter.depthIdx 2 J (UniqIter.run 2 J l)))
   | ["u_tohpx", w, urs] => do
     let w ← w.toNat?; let urs ← parseRngs urs
     pure (showRngs (UniqIter.uniqToHpx w urs))
